@@ -119,6 +119,8 @@ def main(run: Run):
     tree_equiv.add_to(run, "C06")
     from . import patterns_l1
     patterns_l1.add_to(run)
+    from . import busadd_l1
+    busadd_l1.add_to(run, ['csr_decoder_add'])
     from . import validation
     validation.add_to(run, ['csr_decoder_add'])
     return run.finish(
